@@ -222,6 +222,18 @@ fn run_word(word: &[u8], ending: usize, with_shx: bool, sa: &Shape, sb: &Shape, 
         }
     }
     if error.is_none() {
+        // a destination that hands its bytes on only when flushed (a writer lent as &mut, an
+        // upload-on-flush sink) holds what was written up to the last flush: once the writer is
+        // dropped no write may be left behind it, whatever the interleaving was
+        rep.count("drops_observed_for_writes_left_unflushed", 1);
+        for (d, rule) in [(&a, "final:shp-bytes-written-after-the-last-flush"), (&b, "final:shx-bytes-written-after-the-last-flush")] {
+            let ops = d.ops();
+            let last_flush = ops.iter().rposition(|(_, o)| matches!(o, Op::Flush));
+            let pending = ops.iter().skip(last_flush.map(|i| i + 1).unwrap_or(0)).any(|(_, o)| matches!(o, Op::Write(_, b) if !b.is_empty()));
+            if pending {
+                rules.insert(rule);
+            }
+        }
         let (rs, rx) = reference(&written, with_shx);
         if a.data() != rs {
             rules.insert("final:shp");
